@@ -185,6 +185,11 @@ func wrapGet(minor int, obj kmip.Object) *kmip.ResponseMessage {
 }
 
 // transport sends the registered object through a Get response in encoding enc and returns the received payload.
+var sentBefore struct {
+	bytes, copy []byte
+	enc, label  string
+}
+
 func transport(c *core.Ctx, enc string, minor int, obj kmip.Object, label string) *payloads.GetResponsePayload {
 	if obj == nil || (reflect.ValueOf(obj).Kind() == reflect.Ptr && reflect.ValueOf(obj).IsNil()) {
 		// "every key format the client can register it in": the builder refused a key the property names
@@ -202,6 +207,16 @@ func transport(c *core.Ctx, enc string, minor int, obj kmip.Object, label string
 		c.Violation(core.PanicSig(pv, st), fmt.Sprintf("encoder panicked (%s): %v", label, pv), map[string]any{"stack": st})
 		return nil
 	}
+	// a sender queues messages: the bytes returned for the previous object are still waiting to be written when the
+	// next object is marshalled, and must still be that object's bytes
+	if sentBefore.bytes != nil && !bytes.Equal(sentBefore.bytes, sentBefore.copy) {
+		c.Violation("C14:queued-message-changed-by-next-marshal:"+sentBefore.enc, fmt.Sprintf("the bytes returned for %s were rewritten when the next object (%s) was marshalled", sentBefore.label, label), nil)
+		sentBefore.bytes = nil
+		return nil
+	}
+	sentBefore.bytes, sentBefore.copy, sentBefore.enc, sentBefore.label = doc, append([]byte{}, doc...), enc, label
+	c.Count("queued_messages_rechecked", 1)
+	doc = append([]byte{}, doc...) // the receiver has its own buffer
 	transportSeq++
 	if transportSeq%2 == 0 {
 		// every second object arrives as another implementation writes it: the wire image is produced by the harness's
@@ -939,7 +954,7 @@ func Spec() *core.Spec {
 			"part 2: 19 object kinds/formats with every subset (<= 12 removable nodes) or random subsets of their optional nodes removed, wrapped keys and key-format mismatches; every accessor is called on whatever still decodes. " +
 			"transport buffer overwritten after decoding; 3-8 objects held across later messages of one stream; a builder refusing a named key is a violation; every second transparent RSA registration with a key never Precompute()d; every second object transported as a reference wire image written from the pinned layout; EC keys labelled with algorithm EC at 1.3+; distinct = distinct (key, format, version, encoding) transports and distinct degraded tree shapes",
 		Assumptions: []string{"keys smaller than production size exercise the same code paths; a few 1024-bit moduli are included", "mathematical equality = Equal() of crypto/rsa and crypto/ecdsa, byte equality for symmetric keys and secrets"},
-		Required: []string{"transports", "pem_registrations.PemKey", "pem_registrations.PemPublicKey", "pem_registrations.PemPrivateKey", "accessor_calls", "held_objects", "rsa.without-precomputed-crt", "ec.algorithm-EC", "ec.no-compression-type", "transports.reference-wire-image", "degraded_decodable", "degraded_accessor_calls", "rsa.d-leading-zero-byte", "rsa.d-starts-hi", "rsa.d-starts-lo", "ec.P-224", "ec.P-256", "ec.P-384", "ec.P-521",
+		Required: []string{"transports", "queued_messages_rechecked", "pem_multi_flag_formats", "pem_registrations.PemKey", "pem_registrations.PemPublicKey", "pem_registrations.PemPrivateKey", "accessor_calls", "held_objects", "rsa.without-precomputed-crt", "ec.algorithm-EC", "ec.no-compression-type", "transports.reference-wire-image", "degraded_decodable", "degraded_accessor_calls", "rsa.d-leading-zero-byte", "rsa.d-starts-hi", "rsa.d-starts-lo", "ec.P-224", "ec.P-256", "ec.P-384", "ec.P-521",
 			"ec.d-leading-zero-byte", "ec.d-full-width.P-521", "ec.d-full-width.P-256", fmt.Sprintf("ec.transparent.format-%d", kmip.KeyFormatTypeTransparentECDSAPrivateKey), fmt.Sprintf("ec.transparent.format-%d", kmip.KeyFormatTypeTransparentECPrivateKey)},
 		Families: []core.Family{
 			{Name: "keys", N: nOf(1440, 72000), Run: keyCase},
